@@ -192,3 +192,45 @@ def substdio_copy_sites(db, rep, prog):
     if seen != {0, -2, -3} and bad is None:
         raise AnalysisBroken('substdio_copy: outcomes explored %s' % sorted(seen))
     return {'substdio_copy:0=copied,-2=read-error,-3=write-error': (bad is None, 'substdio_copy.c', bad[0] if bad else '', bad[1] if bad else [])}
+
+
+def substdio_put_sites(db, rep, prog):
+    """substdio_put / substdio_bput on a 16-byte buffer: every store stays inside the buffer and no byte is lost
+    (bytes handed to the write operation + bytes left in the buffer = bytes already buffered + bytes put)"""
+    bad = {}
+    n_runs = 0
+    for fname in ('substdio_put', 'substdio_bput'):
+        fn = db.fn('substdo.c', fname)
+        for p0 in (0, 3, 16):
+            for ln in ((0, 1, 13, 14, 16, 17, 40, 300, 8192, 8200, 20000) if fname == 'substdio_put' else (0, 1, 13, 14, 16, 17, 40, 300)):
+                class PH(Conc):
+                    def on_call(self, E, x, args):
+                        if x.callee is None:          # s->op(fd, buf, len): writes everything it is given
+                            n = one(args[2])
+                            return [Outcome(ret=fs(n if isinstance(n, int) else 0), sets={'$written': fs((one(E.get('$written')) or 0) + (n if isinstance(n, int) else 0))})]
+                        return super().on_call(E, x, args)
+
+                    def on_assign(self, E, x, path, val):
+                        if path.startswith('X['):
+                            k = int(path[2:-1])
+                            if not (0 <= k < 16) and getattr(self, 'oob', None) is None:
+                                self.oob = (k, E.trace.list())
+                                E.kill()
+                H = PH(fname)
+                e = Engine(db, prog, H, max_states=400000)
+                fid = e.frame_id(fn)
+                e.run(fn, {'%s::%s' % (fid, fn.params[0]): fs(('&', 'SS')), '%s::%s' % (fid, fn.params[1]): fs(('&', 'IN[0]')), '%s::%s' % (fid, fn.params[2]): fs(ln),
+                           'SS.x': fs(('&', 'X[0]')), 'SS.p': fs(p0), 'SS.n': fs(16), 'SS.fd': fs(4), 'SS.op': fs(('fn', 'OP')), '$written': fs(0)})
+                rep.count_states(e.states, e.transitions)
+                n_runs += 1
+                if getattr(H, 'oob', None):
+                    bad.setdefault('%s:stores-stay-inside-the-buffer' % fname, ('putting %d bytes into a 16-byte buffer that holds %d stores at index %d' % (ln, p0, H.oob[0]), H.oob[1]))
+                    continue
+                if len(H.ends) != 1:
+                    raise AnalysisBroken('%s: %d ends for p=%d len=%d' % (fname, len(H.ends), p0, ln))
+                end, val, tr = H.ends[0]
+                total = (one(end.get('$written')) or 0) + (one(end.get('SS.p')) or 0)
+                if one(val) != 0 or total != p0 + ln or not (0 <= (one(end.get('SS.p')) or 0) <= 16):
+                    bad.setdefault('%s:no-byte-lost-or-duplicated' % fname, ('putting %d bytes with %d buffered: %s written + %s left in the buffer (result %s)' % (ln, p0, one(end.get('$written')), one(end.get('SS.p')), one(val)), tr))
+    keys = ['%s:%s' % (f, k) for f in ('substdio_put', 'substdio_bput') for k in ('stores-stay-inside-the-buffer', 'no-byte-lost-or-duplicated')]
+    return {k: (k not in bad, 'substdo.c', bad[k][0] if k in bad else '', bad[k][1] if k in bad else []) for k in keys}
